@@ -9,11 +9,13 @@
    abstract states and prints one shortest history per state (generator for
    the spec -> code replay). *)
 EXTENDS Integers, Sequences, FiniteSets, TLC
-CONSTANTS MaxN, MaxDepth, Lat
+CONSTANTS MaxN, MaxDepth, Lat, DKs
 NaN == 999999
 PInf == 1000000
 NInf == -1000000
 MCLat == {-2, -1, 0, 1, 2}
+MCDKsQuick == {0, NaN}
+MCDKsFull == {0, 2, NaN}
 BoundPairs == {<<NInf, PInf>>, <<-1, 1>>, <<0, PInf>>, <<1, 1>>}
 Ids == {1, 2}
 VARIABLES objs, live, hist
@@ -67,7 +69,7 @@ Clone(o, how) == /\ Bounded /\ o \in live /\ o = 1
                  /\ Log(<<how, o, 0, 0, "ok">>)
 
 Init == /\ \E n \in 0..MaxN, chk \in BOOLEAN, chkb \in BOOLEAN, nanok \in BOOLEAN :
-           \E bp \in [1..n -> BoundPairs], dk \in [1..n -> {0, 2, NaN}] :
+           \E bp \in [1..n -> BoundPairs], dk \in [1..n -> DKs] :
              LET mins == [i \in 1..n |-> bp[i][1]]
                  maxs == [i \in 1..n |-> bp[i][2]]
                  dflt == [i \in 1..n |-> IF dk[i] = NaN THEN NaN ELSE Clip(dk[i], mins[i], maxs[i])]
@@ -110,5 +112,7 @@ HitExact == [][LET a == Last IN
                  /\ a[1] = "reset" => ~objs'[a[2]].hit
                  /\ (a[5] = "ok" /\ a[1] \in {"setattr", "setkey", "setall"} /\ ~objs[a[2]].chk) => ~objs'[a[2]].hit]_vars
 NoHitWithoutCheck == \A o \in live : objs[o].hit => objs[o].chk
-View == <<objs, live>>
+\* the last action (name, outcome) is part of the view so that histories ending in a rejected
+\* (state-preserving) operation are generated for every state
+View == <<objs, live, hist[Len(hist)].act[1], hist[Len(hist)].act[5]>>
 ===========================================================================
